@@ -384,12 +384,13 @@ COMMON = ["is_sample(sample0, 1, A_len)", "A_len == " + NB.format(k="len(databas
 contract(SCH + "._Enc", modifies_ghost=["rng_n", "sample0"], params=dict(self=SCHT, K=KEYT, database=DBT), returns=EDBT,
          requires=VALID_CFG + ["len(K.K) == self.config.param_lambda", "valid_db(database, self.config.param_identifier_size)", "ne_db(database)"],
          ensures=["pt_repr(dmap(result.D), self.config.param_lambda, K.K, database, self.config.param_B, self.config.param_b, sample0, len(result.A))",
+                  "asc_bl(dkeys(result.D), len(result.D))",      # C06: labels stored in ascending order whatever the order of the input
                   a_post, "is_sample(sample0, 1, len(result.A))", "len(sample0) == len(result.A) - 1",
                   "len(result.A) == blocks_upto(database, len(database), self.config.param_B) + 1",
                   "len(result.D) == pblocks_upto(database, len(database), self.config.param_B, self.config.param_b)"],
          locals={"L": PL, "A": OBL, "index_list_in_A": BL},
          lemmas=["A2_prf_injective", "A6_prf_len", "lmapf_frame", "distinct_frame", "dec_enc", "blocks_mono", "blocks_mono2", "ptrl_len",
-                 "bitlen_bound", "pow2_mono", "R1_sample_nth", "psum_frame", "blocks_nonneg", "cdiv_eq", "ptrl_all_len", "R1_sample_onto", "blocks_ok_store", "prefix_last", "blocks_ok_cong"],
+                 "bitlen_bound", "pow2_mono", "R1_sample_nth", "psum_frame", "blocks_nonneg", "cdiv_eq", "ptrl_all_len", "R1_sample_onto", "blocks_ok_store", "prefix_last", "blocks_ok_cong", "firsts_asc", "B3_sort_len"],
          loops={0: dict(elem=TInt, invariant=["len(_acc) == it", "psum_upto(_acc, it) == " + NB.format(k="it")],
                         hints=[("cdiv_eq", ["len(database[dkeys(database)[it]])", "self.config.param_B"])]),
                 1: dict(invariant=COMMON + [
@@ -397,7 +398,8 @@ contract(SCH + "._Enc", modifies_ghost=["rng_n", "sample0"], params=dict(self=SC
                     pt_inv_at("it", "0"),
                     "distinct_upto(L, len(L))", "len(L) == pblocks_upto(database, it, self.config.param_B, self.config.param_b)",
                     fc_at, a_inv_at("it")],
-                    hints=[("blocks_mono2", ["database", "it + 1", "len(database)", "self.config.param_B"])]),
+                    hints=[("blocks_mono2", ["database", "it + 1", "len(database)", "self.config.param_B"])],
+                    exit_hints=[("firsts_asc", ["sorted_pairs(L)", "len(L)"])]),
                 2: dict(invariant=COMMON + [
                     avail_prefix, "len(available_pos_list) == A_len - 1 - " + NB.format(k="_it1") + " - it",
                     "file_id_block_list == part(database[keyword], self.config.param_B, self.config.param_B * self.config.param_identifier_size)",
@@ -423,7 +425,7 @@ contract(SCH + "._Enc", modifies_ghost=["rng_n", "sample0"], params=dict(self=SC
                     "K1 == prf('sha1', self.config.param_lambda, K, b'\\x01' + keyword)",
                     "K2 == prf('sha1', self.config.param_lambda, K, b'\\x02' + keyword)",
                     ])},     # (A and the free list are not touched by loop 3: what loop 2 established about them is still known)
-         no_runtime=True, props=["C01", "C02", "C05"])
+         no_runtime=True, props=["C01", "C02", "C05", "C06"])
 
 # ---- Search: given Repr (dictionary part + array part over the same sampled arrangement) and the token of gq, the result is DB[gq] --------
 kwpos = specfn("kwpos", [DBT, TBytes], TInt, macro=True, doc="insertion position of keyword w in the database (B4)")
